@@ -1376,6 +1376,10 @@ func SupportedTcbLevelsFromCollateral(quote any, options *Options) (pcs.TcbLevel
 	if options == nil {
 		return pcs.TcbLevel{}, pcs.TcbLevel{}, ErrOptionsNil
 	}
+	if options.Now == nil {
+		options.Now = defaultTimeSet()
+		defer func() { options.Now = nil }()
+	}
 	if err := verifyCollateral(options); err != nil {
 		return pcs.TcbLevel{}, pcs.TcbLevel{}, err
 	}
@@ -1446,7 +1450,9 @@ func tdxQuoteV4(quote *pb.QuoteV4, options *Options) error {
 	options.pckCertExtensions = exts
 	options.chain = chain
 	if options.Now == nil {
+		// The default is the time of this call; it must not leak into later calls that reuse options.
 		options.Now = defaultTimeSet()
+		defer func() { options.Now = nil }()
 	}
 	return verifyEvidenceV4(quote, options)
 }
